@@ -104,7 +104,7 @@ pub async fn run_with(seed: u64, sched: Rc<Sched>, keep_log: bool, in_situ: bool
             // "A forged entry positioned after valid ones": a fresh, valid, newest announcement of
             // one member first, a long run of padding by non-members, then a forged newest
             // announcement of a member.
-            let mk = |rng: &mut rand_chacha::ChaCha8Rng, valid: bool, version: u64| -> (Ann, bool) {
+            let mk = |rng: &mut crate::kit::SimRng, valid: bool, version: u64| -> (Ann, bool) {
                 let k = rng.gen_range(0..nval);
                 let msg = validator::NetAddress { addr: format!("10.9.{}.{}:4000", k, version % 250).parse().unwrap(), version, timestamp: base };
                 let mut s = keys[k].sign_msg(msg.clone());
